@@ -64,6 +64,16 @@ pub trait ZnxView: ZnxInfos + DataView<D: DataRef> {
 
     /// Returns a non-mutable reference to the entire underlying coefficient array.
     fn raw(&self) -> &[Self::Scalar] {
+        #[cfg(poulpy_verif)]
+        crate::verif::check_raw(
+            "ZnxView::raw",
+            self.as_ptr() as usize,
+            align_of::<Self::Scalar>(),
+            self.n(),
+            self.poly_count(),
+            size_of::<Self::Scalar>(),
+            self.data().as_ref().len(),
+        );
         unsafe { std::slice::from_raw_parts(self.as_ptr(), self.n() * self.poly_count()) }
     }
 
@@ -71,6 +81,19 @@ pub trait ZnxView: ZnxInfos + DataView<D: DataRef> {
     fn at_ptr(&self, i: usize, j: usize) -> *const Self::Scalar {
         assert!(i < self.cols(), "cols: {} >= self.cols(): {}", i, self.cols());
         assert!(j < self.size(), "size: {} >= self.size(): {}", j, self.size());
+        #[cfg(poulpy_verif)]
+        crate::verif::check_at(
+            "ZnxView::at_ptr",
+            self.as_ptr() as usize,
+            align_of::<Self::Scalar>(),
+            self.n(),
+            self.cols(),
+            self.size(),
+            i,
+            j,
+            size_of::<Self::Scalar>(),
+            self.data().as_ref().len(),
+        );
         let offset: usize = self.n() * (j * self.cols() + i);
         unsafe { self.as_ptr().add(offset) }
     }
@@ -92,6 +115,16 @@ pub trait ZnxViewMut: ZnxView + DataViewMut<D: DataMut> {
 
     /// Returns a mutable reference to the entire underlying coefficient array.
     fn raw_mut(&mut self) -> &mut [Self::Scalar] {
+        #[cfg(poulpy_verif)]
+        crate::verif::check_raw(
+            "ZnxViewMut::raw_mut",
+            self.as_ptr() as usize,
+            align_of::<Self::Scalar>(),
+            self.n(),
+            self.poly_count(),
+            size_of::<Self::Scalar>(),
+            self.data().as_ref().len(),
+        );
         unsafe { std::slice::from_raw_parts_mut(self.as_mut_ptr(), self.n() * self.poly_count()) }
     }
 
@@ -99,6 +132,19 @@ pub trait ZnxViewMut: ZnxView + DataViewMut<D: DataMut> {
     fn at_mut_ptr(&mut self, i: usize, j: usize) -> *mut Self::Scalar {
         assert!(i < self.cols(), "cols: {} >= self.cols(): {}", i, self.cols());
         assert!(j < self.size(), "size: {} >= self.size(): {}", j, self.size());
+        #[cfg(poulpy_verif)]
+        crate::verif::check_at(
+            "ZnxViewMut::at_mut_ptr",
+            self.as_ptr() as usize,
+            align_of::<Self::Scalar>(),
+            self.n(),
+            self.cols(),
+            self.size(),
+            i,
+            j,
+            size_of::<Self::Scalar>(),
+            self.data().as_ref().len(),
+        );
         let offset: usize = self.n() * (j * self.cols() + i);
         unsafe { self.as_mut_ptr().add(offset) }
     }
